@@ -17,6 +17,7 @@ for f in p.all_functions:
     if a.kwarg:
         names.append('**' + a.kwarg.arg)
     out[f.qualname.split('@')[0]] = names
+    out['#pos:' + f.qualname.split('@')[0]] = [x.arg for x in a.posonlyargs + a.args]
 dst = os.path.join(os.path.dirname(os.path.dirname(os.path.abspath(__file__))), 'sa', 'signatures.json')
 json.dump(out, open(dst, 'w'), indent=0, sort_keys=True)
 print(len(out), 'signatures ->', dst)
